@@ -594,7 +594,14 @@ def programs(draw, max_depth=4, max_stmts=5, features=None):
         if k in ("count", "findif", "select"):
             return [k, arrexpr(ctx), block(ctx.sub(nums=ctx.nums + ("_x",), scopes=(), in_try=False), ends="bool", maxlen=2, plain=True)]
         if k == "apply":
-            return ["apply", arrexpr(ctx), block(ctx.sub(nums=ctx.nums + ("_x",), scopes=(), in_try=False), ends="num", maxlen=2, plain=True)]
+            sub = ctx.sub(nums=ctx.nums + ("_x",), scopes=(), in_try=False)
+            blk = block(sub, ends="num", maxlen=2, plain=True)
+            m = draw(st.integers(0, 7))
+            if m == 0:
+                blk = []                                   # no statement executed: every element yields nil
+            elif m == 1:
+                blk = blk + [["set", draw(st.sampled_from(["ga", "gb"])), numexpr(sub)]]   # the last statement leaves no value: nil
+            return ["apply", arrexpr(ctx), blk]
         raise ValueError(k)
 
     def loopbody(ctx, binds):
@@ -772,6 +779,8 @@ def features_of(prog):
             walk_block(e[1], depth + 1, 0); walk_block(e[2], depth + 1, loops)
         elif k in ("count", "findif", "select", "apply"):
             labs.add(k)
+            if k == "apply" and (not e[2] or e[2][-1][0] == "set"):
+                labs.add("apply_yields_nil")
             walk_block(e[2], depth + 1, loops + 1)
 
     walk_block(prog, 0, 0)
